@@ -328,9 +328,98 @@ def gen_lextable():
     return "\n".join(lines)
 
 
+# ---------------------------------------------------------------------------------------------
+# enum vocabularies: every `pub enum` the model mirrors as an inductive type.  For each one a Lean function is
+# generated that matches on the MODEL's inductive with exactly one arm per RUST variant and one `_` per field of
+# that variant; Lean elaborates it only if the model type has exactly these constructors with these arities (an
+# added variant is an unknown constructor, a removed one a missing case, a changed field list an arity error).
+
+def parse_enum(src, name):
+    m = re.search(r"pub enum " + name + r"\s*\{", src)
+    if not m:
+        fail("cannot find `pub enum %s`" % name)
+    i, depth, start = m.end(), 1, m.end()
+    while depth:
+        if i >= len(src):
+            fail("unbalanced braces in enum " + name)
+        depth += {"{": 1, "}": -1}.get(src[i], 0)
+        i += 1
+    body = re.sub(r"#\[[^\]]*\]", "", src[start:i - 1])
+    out, k = [], 0
+    while True:
+        mm = re.compile(r"\s*([A-Z]\w*)\s*").match(body, k)
+        if not mm:
+            if body[k:].strip():
+                fail("cannot parse variants of enum %s near %r" % (name, body[k:k + 40]))
+            break
+        vname, k = mm.group(1), mm.end()
+        fields = []
+        if k < len(body) and body[k] in "{(":
+            close = {"{": "}", "(": ")"}[body[k]]
+            d, j = 1, k + 1
+            while d:
+                d += 1 if body[j] in "{(<[" else -1 if body[j] in "})>]" else 0
+                j += 1
+            inner = body[k + 1:j - 1]
+            parts, dd, cur = [], 0, ""
+            for ch in inner:
+                dd += 1 if ch in "{(<[" else -1 if ch in "})>]" else 0
+                if ch == "," and dd == 0:
+                    parts.append(cur)
+                    cur = ""
+                else:
+                    cur += ch
+            parts = [x.strip() for x in parts + [cur] if x.strip()]
+            if close == "}":
+                fields = [re.match(r"(?:pub\s+)?(\w+)\s*:", x).group(1) for x in parts]
+            else:
+                fields = [re.sub(r"\s+", "", x) for x in parts]
+            k = j
+        out.append((vname, fields))
+        mm = re.compile(r"\s*,?").match(body, k)
+        k = mm.end()
+    if not out:
+        fail("enum %s has no variants" % name)
+    return out
+
+
+VOCAB = [  # (rust file, enum, model type, variant -> model constructor (default: lowerCamelCase))
+    ("ast.rs", "Ast", "Ast", {}),
+    ("ast.rs", "Comparator", "Cmp", {"Equal": "eq", "NotEqual": "ne", "LessThan": "lt", "LessThanEqual": "le", "GreaterThan": "gt", "GreaterThanEqual": "ge"}),
+    ("lexer.rs", "Token", "Tok", {}),
+    ("variable.rs", "Variable", "Val", {"Bool": "bool", "Number": "num", "String": "str", "Array": "arr", "Object": "obj"}),
+    ("variable.rs", "JmespathType", "JType", {}),
+    ("functions.rs", "ArgumentType", "ArgT", {}),
+    ("errors.rs", "RuntimeError", "RtErr", {"TooManyArguments": "tooMany", "NotEnoughArguments": "notEnough"}),
+]
+
+
+def gen_vocab():
+    out = ["-- GENERATED by tools/translate.py from /repo/jmespath/src (enum vocabularies) — do not edit",
+           "import JmesVerif.Model.Interp", "import JmesVerif.Model.Lexer", "namespace JmesVerif.Generated", ""]
+    for f, en, ty, ren in VOCAB:
+        vs = parse_enum(strip_rust_comments(read(f)), en)
+        low = en[0].lower() + en[1:]
+        out.append("/-- `enum %s` (%s): one arm per variant, one `_` per field — elaborates iff `%s` has exactly these constructors/arities -/" % (en, f, ty))
+        out.append("def %sVariant : %s → String" % (low, ty))
+        for v, fs in vs:
+            c = ren.get(v, v[0].lower() + v[1:])
+            out.append("  | .%s%s => \"%s\"" % (c, " _" * len(fs), v))
+        out.append("")
+        out.append("def %sFields : List (String × List String) :=" % low)
+        out.append("  [" + ",\n   ".join("(\"%s\", [%s])" % (v, ", ".join('"%s"' % x for x in fs)) for v, fs in vs) + "]")
+        out.append("")
+    # ErrorReason is not mirrored one-to-one (the model's EvalErr adds the offset and the panic / fuel outcomes); recorded as data
+    vs = parse_enum(strip_rust_comments(read("errors.rs")), "ErrorReason")
+    out.append("def errorReasonFields : List (String × List String) :=")
+    out.append("  [" + ", ".join("(\"%s\", [%s])" % (v, ", ".join('"%s"' % x for x in fs)) for v, fs in vs) + "]")
+    out += ["", "end JmesVerif.Generated", ""]
+    return "\n".join(out)
+
+
 def main():
     ch = []
-    for name, fn in (("Lbp.lean", gen_lbp), ("Signatures.lean", gen_sigs), ("Features.lean", gen_features), ("LexTable.lean", gen_lextable)):
+    for name, fn in (("Lbp.lean", gen_lbp), ("Signatures.lean", gen_sigs), ("Features.lean", gen_features), ("LexTable.lean", gen_lextable), ("Vocab.lean", gen_vocab)):
         if write_if_changed(name, fn()):
             ch.append(name)
     print("translate: " + ("rewrote " + ", ".join(ch) if ch else "unchanged"))
